@@ -55,10 +55,20 @@ func (o *Oracle) captureBootImageExcept(n *Node, skip map[string]bool) bootImage
 		im.snapIdx, im.snapTerm = s.Meta.Index, s.Meta.Term
 		im.cfg, im.cfgIdx = s.Meta.Configuration.Clone(), s.Meta.ConfigurationIndex
 	}
+	// a store that cannot hold gaps whose log holds another term at the snapshot's index than the
+	// snapshot does: the server stopped between installing that snapshot and clearing its log; the
+	// reset the install owed is completed at start-up, the expected log is empty
+	if o.w.cfg.StoreFlavour != FlavourPlain && im.snapIdx > 0 {
+		if e, ok := d.ent(im.snapIdx); ok && e.Term != im.snapTerm {
+			im.lastLog = 0
+			im.staleLog = true
+			o.w.stats.probe("boot_with_log_from_before_the_installed_snapshot")
+		}
+	}
 	// configuration entries above the snapshot, in index order
 	var idxs []uint64
 	for i, l := range d.logs {
-		if i > im.snapIdx && l.Type == raft.LogConfiguration {
+		if i > im.snapIdx && l.Type == raft.LogConfiguration && !im.staleLog {
 			idxs = append(idxs, i)
 		}
 	}
@@ -69,7 +79,7 @@ func (o *Oracle) captureBootImageExcept(n *Node, skip map[string]bool) bootImage
 			im.cfg, im.cfgIdx = c, last
 		}
 	}
-	for i := im.snapIdx + 1; i <= d.last; i++ {
+	for i := im.snapIdx + 1; i <= d.last && !im.staleLog; i++ {
 		if _, ok := d.logs[i]; !ok && d.last > im.snapIdx {
 			im.holes = true
 		}
